@@ -6,6 +6,7 @@ package main
 // invalidation breaks format rule X" => must be refused).
 
 import (
+	"time"
 	"os"
 	"unicode"
 	"fmt"
@@ -238,11 +239,13 @@ var badHex = []string{"", "xyz", "12g4", "abc ", " abc", "ab\n", "0x12", "ab-cd"
 	"12\uff41b", "ab\uff10", "\uff46f", "\u0661\u0662\u0663", "ab\u0660", "\u0967\u0968", "\U0001d7d8\U0001d7d9", "\u0430\u0431\u0441", "\u0391\u0392", "a\u0301", "ab\u200b"}
 var badExpiry = []string{"", "2030-01-02", "2030-01-02T03:04:05", "2030-01-02T03:04:05+00:00", "2030-13-02T03:04:05Z",
 	"2030-02-30T03:04:05Z", "2030-01-02 03:04:05Z", "2030-1-2T03:04:05Z", "2030-01-02T24:00:00Z", "tomorrow",
-	"2030-01-02T03:04:05Zx", "20300-01-02T03:04:05Z"}
+	"2030-01-02T03:04:05Zx", "20300-01-02T03:04:05Z", "2030-01-02T03:04:05.Z",
+	"2030-01-02T03:4:05Z", "2030-01-02T03:04:5Z", "2030-01-02T003:04:05Z", "2030-01-02T03:04:05.5", "2031-02-29T03:04:05Z", "2030-01-02t03:04:05Z", "2030-01-02T03:04:05z"}
 
 // accepted by time.Parse although the layout string has no fraction (Go reads a fractional second after
 // the seconds field); "parseable" is what the property asks: no demand, model tie only
-var oddExpiry = []string{"2030-01-02T03:04:05.5Z", "2030-01-02T03:04:05,123456789Z", "2030-01-02T03:04:05.Z", "2030-01-02T03:04:05.1234567890Z"}
+var oddExpiry = []string{"2030-01-02T03:04:05.5Z", "2030-01-02T03:04:05,123456789Z", "2030-01-02T03:04:05.1234567890Z",
+	"2030-01-02T3:04:05Z", "0000-01-01T0:00:00Z", "2030-01-02T9:04:05.25Z", "2032-02-29T23:59:59Z"}
 var badRules = [][]string{{}, {"CREATE"}, {"CREATE", "a", "b"}, {"FOO", "a"}, {"MATCH", "a", "WITH", "PRODUCTS"},
 	{"MATCH", "a", "WITH", "FOO", "FROM", "b"}, {"MATCH", "a", "IN", "b", "WITH", "PRODUCTS", "FROM"}, {""},
 	{"MATCH", "a", "WITH", "PRODUCTS", "FROM", "b", "x"}}
@@ -255,6 +258,109 @@ func hexKlass(base, h string) string {
 		}
 	}
 	return base
+}
+
+// expiryParses: by-hand reading of time.Parse with the layout "2006-01-02T15:04:05Z" (mirrors coq/spec/ExpirySpec.v):
+// year exactly 4 digits; month, day, minute, second exactly 2 digits; hour 1 or 2 digits; literal '-', 'T', ':', 'Z';
+// an optional fractional second ('.' or ',' followed by at least one digit) after the seconds; Go's range checks
+// including the validity of the day in its month; nothing after the 'Z'.
+func expiryParses(s string) bool {
+	isD := func(i int) bool { return i < len(s) && s[i] >= '0' && s[i] <= '9' }
+	pos := 0
+	num := func(fixed bool) (int, bool) { // Go's getnum
+		if !isD(pos) {
+			return 0, false
+		}
+		if !isD(pos + 1) {
+			if fixed {
+				return 0, false
+			}
+			v := int(s[pos] - '0')
+			pos++
+			return v, true
+		}
+		v := int(s[pos]-'0')*10 + int(s[pos+1]-'0')
+		pos += 2
+		return v, true
+	}
+	lit := func(c byte) bool {
+		if pos < len(s) && s[pos] == c {
+			pos++
+			return true
+		}
+		return false
+	}
+	if len(s) < 4 || !isD(0) || !isD(1) || !isD(2) || !isD(3) {
+		return false
+	}
+	year := int(s[0]-'0')*1000 + int(s[1]-'0')*100 + int(s[2]-'0')*10 + int(s[3]-'0')
+	pos = 4
+	if !lit('-') {
+		return false
+	}
+	month, ok := num(true)
+	if !ok || month < 1 || month > 12 || !lit('-') {
+		return false
+	}
+	day, ok := num(true)
+	if !ok || !lit('T') {
+		return false
+	}
+	hour, ok := num(false)
+	if !ok || hour > 23 || !lit(':') {
+		return false
+	}
+	min, ok := num(true)
+	if !ok || min > 59 || !lit(':') {
+		return false
+	}
+	sec, ok := num(true)
+	if !ok || sec > 59 {
+		return false
+	}
+	if pos+1 < len(s) && (s[pos] == '.' || s[pos] == ',') && isD(pos+1) {
+		pos += 2
+		for isD(pos) {
+			pos++
+		}
+	}
+	if !lit('Z') || pos != len(s) {
+		return false
+	}
+	dim := []int{31, 28, 31, 30, 31, 30, 31, 31, 30, 31, 30, 31}[month-1]
+	if month == 2 && year%4 == 0 && (year%100 != 0 || year%400 == 0) {
+		dim = 29
+	}
+	return day >= 1 && day <= dim
+}
+
+// the by-hand reading and time.Parse must not drift apart: checked on generated strings at every generation
+func expirySelfCheck(r *lib.Rng, n int) {
+	alphabet := "0123456789-:TZ.,+ tz"
+	bases := append(append([]string{}, goodExpiry...), badExpiry...)
+	bases = append(bases, oddExpiry...)
+	for i := 0; i < n; i++ {
+		b := []byte(bases[r.Intn(len(bases))])
+		if r.Chance(1, 3) { // random calendar fields
+			b = []byte(fmt.Sprintf("%04d-%02d-%02dT%02d:%02d:%02dZ", r.Intn(10000), r.Intn(14), r.Intn(33), r.Intn(26), r.Intn(62), r.Intn(62)))
+		}
+		for k := r.Intn(3); k > 0 && len(b) > 0; k-- {
+			j := r.Intn(len(b))
+			switch r.Intn(3) {
+			case 0:
+				b[j] = alphabet[r.Intn(len(alphabet))]
+			case 1:
+				b = append(b[:j], b[j+1:]...)
+			default:
+				b = append(b[:j], append([]byte{alphabet[r.Intn(len(alphabet))]}, b[j:]...)...)
+			}
+		}
+		s := string(b)
+		_, err := time.Parse("2006-01-02T15:04:05Z", s)
+		if (err == nil) != expiryParses(s) {
+			panic(fmt.Sprintf("harness self-check: the by-hand expiry reading says parses=%v for %q, time.Parse says err=%v", expiryParses(s), s, err))
+		}
+	}
 }
 
 type pems struct{ rsaPub, rsaPriv, ecPub, ecPriv, cert, garbage string }
@@ -321,7 +427,8 @@ func layoutInvalidations(r *lib.Rng, base intoto.Layout) []valCase {
 	for _, e := range oddExpiry {
 		l := cloneLayout(base)
 		l.Expires = e
-		out = append(out, valCase{klass: "layout-expiry-fraction", target: "metablock", v: valInput{Layout: &l}, want: ""})
+		out = append(out, valCase{klass: "layout-expiry-go-lenient", target: "metablock", v: valInput{Layout: &l}, want: "OK",
+			desc: "expires = " + e + " (time.Parse accepts a one-digit hour and a fractional second)"})
 	}
 	add("key-mapid", func(l *intoto.Layout) {
 		id, k := firstKey(l)
@@ -927,6 +1034,22 @@ func historyCases(r *lib.Rng, w *lib.Writer) {
 }
 
 func valCases(r *lib.Rng, w *lib.Writer, n int, thorough bool) {
+	expirySelfCheck(r.Fork(), 20000)
+	for _, e := range goodExpiry {
+		if !expiryParses(e) {
+			panic("harness self-check: goodExpiry " + e)
+		}
+	}
+	for _, e := range badExpiry {
+		if expiryParses(e) {
+			panic("harness self-check: badExpiry " + e)
+		}
+	}
+	for _, e := range oddExpiry {
+		if !expiryParses(e) {
+			panic("harness self-check: oddExpiry " + e)
+		}
+	}
 	var all []valCase
 	rounds := 1
 	if thorough {
